@@ -137,4 +137,20 @@ PROPS = {
                      'the model variant is named by the harness flag -fixed (default 9,15,16,17 = all proposed repairs present in /repo)'],
         trusted=['scripted broker peer and fake transport.Conn of gosyn/servicetrace', 'reflection on Service\'s private fields (queue length, store ids, subscription tree) at quiescence'],
     ),
+    'C09': dict(
+        harness='clienttrace', syn=True, args=['-prop', 'C09'], shards=dict(quick=8, thorough=16),
+        rule='directed scenarios (unsendable CONNECT / failing Session.Reset then Close, dial failure, CONNACK accepted/denied/session-present/garbage/none, SUBACK failure with and without ValidateSubs, failing DeletePacket in every ack handler, API call parked in NextID/SavePacket while the connection drops, resume with unacknowledged QoS 1/2 packets) plus random scripts: publish/subscribe/unsubscribe/disconnect/close (also from several goroutines at once), acks in and out of order, missing and spurious acks, drops (peer close / broken carrier), k-th send / session operation failing, parked API and processor, reconnects with the same session clean and unclean; futures polled and every accessor called after each step; Close/Disconnect under a watchdog; distinct = distinct step sequences',
+        assumptions=['real client.Client inside a testing/synctest bubble (go1.26) against a scripted in-memory transport.Conn, a logging / fault-injecting / parking client.Session around session.MemorySession and a scripted Callback; every visible event must be an enabled step of lean/Model/Client.lean (hidden micro-steps are searched)',
+                     'exported methods are entered one at a time through a harness-level lock (Client.mutex serialises them anyway; structural fact F-lock), their micro-steps interleave freely with the processor',
+                     'KeepAlive is 0 in the harness: under the exact fake clock the pinger re-arms a zero timer for ever (Window()==0 is "not due"); the pinger is part of the model and the theorems but is not exercised by the correspondence run',
+                     'async Send into a locally closed connection succeeds (as BaseConn buffers it), a failed Send closes the carrier'],
+    ),
+    'C10': dict(
+        harness='clienttrace', syn=True, args=['-prop', 'C10'], shards=dict(quick=8, thorough=16),
+        rule='directed scenarios (PUBREL for an unknown id, PUBCOMP write failing then resumed PUBREL, callback error at QoS 0/1/2 in both callback modes then redelivery, duplicated PUBLISH / repeated PUBREL over ids 1-3) plus random broker scripts over {PUBLISH(id 1-3, qos 0-2, dup), PUBREL known/unknown/repeated, drop + resume with the same session, clean and unclean} with callback errors and failing sends at every acknowledgement, both callback modes; distinct = distinct step sequences',
+        assumptions=['real client.Client inside a testing/synctest bubble (go1.26) against a scripted in-memory transport.Conn, a logging / fault-injecting / parking client.Session around session.MemorySession and a scripted Callback; every visible event must be an enabled step of lean/Model/Client.lean (hidden micro-steps are searched)',
+                     'exported methods are entered one at a time through a harness-level lock (Client.mutex serialises them anyway; structural fact F-lock), their micro-steps interleave freely with the processor',
+                     'KeepAlive is 0 in the harness: under the exact fake clock the pinger re-arms a zero timer for ever (Window()==0 is "not due"); the pinger is part of the model and the theorems but is not exercised by the correspondence run',
+                     'async Send into a locally closed connection succeeds (as BaseConn buffers it), a failed Send closes the carrier'],
+    ),
 }
